@@ -14,6 +14,7 @@ from ser import count_nodes, ser
 
 common.assert_repo_import()
 from ampform.dynamics import (  # noqa: E402
+    EnergyDependentWidth,
     relativistic_breit_wigner,
     relativistic_breit_wigner_with_ff,
 )
@@ -77,6 +78,34 @@ else:
                 pv = "true" if name.endswith("PVector") else "false"
                 marked.append(f'("{tag}", ({rel}, {pv}), [' + "; ".join(ser(e) for e in m) + "])")
                 report[tag] = sum(count_nodes(e) for e in m)
+    # the same with the marker given as a plain FUNCTION, formulated right after a call with ANOTHER
+    # function of the same qualified name (closures of one factory); widths unfolded one level so that
+    # the phase-space function actually used inside them is visible
+    def make_phsp(head):
+        def rho(s_, m_a_, m_b_):
+            return head(s_, m_a_, m_b_)
+        return rho
+
+    def unfold_widths(e):
+        return e.replace(lambda x: isinstance(x, EnergyDependentWidth), lambda x: x.evaluate())
+
+    f_decoy, f_marker = make_phsp(sp.Function("rhoDecoy")), make_phsp(rhoX)
+    assert f_decoy.__qualname__ == f_marker.__qualname__ and f_decoy is not f_marker
+    hist = []
+    for name, cls, flags in (
+        ("RelativisticKMatrix", RelativisticKMatrix, [{"return_t_hat": False}, {"return_t_hat": True}]),
+        ("RelativisticPVector", RelativisticPVector, [{"return_f_hat": False}, {"return_f_hat": True}]),
+    ):
+        for fl in flags:
+            for n in (1, 2):
+                kw = dict(parametrize=True, angular_momentum=Lx, meson_radius=dx, **fl)
+                cls.formulate(n, npoles, phsp_factor=f_decoy, **kw)
+                m = cls.formulate(n, npoles, phsp_factor=f_marker, **kw)
+                tag = name + "/" + ",".join(f"{k}={v}" for k, v in fl.items()) + f"/n={n}"
+                hist.append(f'("{tag}", [' + "; ".join(ser(unfold_widths(e)) for e in m) + "])")
+    lines.append("Definition gen_marked_hist : list (string * list expr) :=\n  ["
+                 + ";\n   ".join(hist) + "].\n")
+
     lines.append("Definition gen_marked : list (string * (bool * bool) * list expr) :=\n  ["
                  + ";\n   ".join(marked) + "].\n")
 
